@@ -120,6 +120,36 @@ func joinFilled(p, a, v, b hc.P2, st strokeStyle, hw, lo, band float64, straight
 	return false
 }
 
+// clipCut: float version of Canvas.C04.Spec.inClipCut — the cut miter of a clipping joiner: in the
+// cone of the two outer normals, below both outer offset lines (grown to hw+band) and at most
+// limit*hw+band from the vertex along the bisector.
+func clipCut(p, a, v, b hc.P2, st strokeStyle, hw, band float64) bool {
+	if st.join != 3 && st.join != 5 {
+		return false
+	}
+	d0, d1 := unit(v.Sub(a)), unit(b.Sub(v))
+	cr := d0.Cross(d1)
+	if math.Abs(cr) < 1e-9 {
+		return false
+	}
+	n0, n1 := hc.P2{X: d0.Y, Y: -d0.X}, hc.P2{X: d1.Y, Y: -d1.X}
+	if cr < 0 {
+		n0, n1 = n0.Mul(-1), n1.Mul(-1)
+	}
+	q := p.Sub(v)
+	cc := n0.Cross(n1)
+	sg := 1.0
+	if cc < 0 {
+		sg = -1
+	}
+	if sg*q.Cross(n1) < 0 || sg*n0.Cross(q) < 0 {
+		return false
+	}
+	m := unit(n0.Add(n1))
+	lim := math.Max(st.limit, 1.001)
+	return q.Dot(n0) <= hw+band && q.Dot(n1) <= hw+band && q.Dot(m) <= lim*hw+band
+}
+
 func flagsFor(p hc.P2, pls []polyline, st strokeStyle, hw, lo, band float64) int {
 	guaranteed := false
 	farExempt := false
@@ -168,7 +198,7 @@ func flagsFor(p hc.P2, pls []polyline, st strokeStyle, hw, lo, band float64) int
 					guaranteed = true
 				}
 				lim := math.Max(st.limit, 1.001)
-				if st.join >= 2 && p.Dist(v) <= lim*hw+band {
+				if st.join >= 2 && (p.Dist(v) <= lim*hw+band || clipCut(p, a, v, b, st, hw, band)) {
 					farExempt = true
 				}
 				if (st.join == 3 || st.join == 5) && p.Dist(v) <= math.Sqrt(1+lim*lim)*hw+band {
@@ -992,7 +1022,7 @@ func regionCurved(c *hc.Ctx) {
 							if joinFilled(pt, a, v, b, stf, hw, lo, band, false) {
 								guaranteed = true
 							}
-							if stf.join >= 2 && pt.Dist(v) <= lim*hw+band {
+							if stf.join >= 2 && (pt.Dist(v) <= lim*hw+band || clipCut(pt, a, v, b, stf, hw, band)) {
 								farExempt = true
 							}
 						default:
@@ -1021,16 +1051,18 @@ func regionCurved(c *hc.Ctx) {
 				cls := "hole"
 				if d >= lo-canvas.Tolerance {
 					cls += "-within-global-Tolerance"
-				} else if strings.Contains(class, "cubic") || strings.Contains(class, "quad") {
+				}
+				if strings.Contains(class, "cubic") || strings.Contains(class, "quad") {
 					// where: next to a join vertex, or along the (offset) curve
-					cls += "@curve"
+					tag := "@curve"
 					for _, pl := range pls {
 						for _, v := range pl.pts {
 							if joinsAt[v] && pt.Dist(v) <= d+1e-9 {
-								cls = "hole@join"
+								tag = "@join"
 							}
 						}
 					}
+					cls += tag
 				}
 				c.Fail(fmt.Sprintf("stroke-curved:%s:%s:%s%s", st.name(), class, cls, suffix), verdict, map[string]any{"P": P.String(), "w": w, "style": st.name(), "limit": st.limit, "tol": tol, "point": []float64{pt.X, pt.Y}, "R": R.String()})
 				break
@@ -1049,6 +1081,17 @@ func regionCurved(c *hc.Ctx) {
 							}
 						}
 					}
+				}
+				if strings.HasPrefix(cls, "spurious") && !strings.Contains(cls, "beyond-miter") && (strings.Contains(class, "cubic") || strings.Contains(class, "quad")) {
+					tag := "@curve"
+					for _, pl := range pls {
+						for _, v := range pl.pts {
+							if joinsAt[v] && pt.Dist(v) <= d+1e-9 {
+								tag = "@join"
+							}
+						}
+					}
+					cls += tag
 				}
 				c.Fail(fmt.Sprintf("stroke-curved:%s:%s:%s%s", st.name(), class, cls, suffix), verdict, map[string]any{"P": P.String(), "w": w, "style": st.name(), "limit": st.limit, "tol": tol, "point": []float64{pt.X, pt.Y}, "R": R.String()})
 				break
